@@ -51,7 +51,7 @@ impl Prop for C12 {
             kind_weights: [2, 3, 4, 1, 1],
             ..EvCfg::default()
         };
-        (history(w, cfg, tier.pick(30, 100)), 0u8..3, prop_oneof![tier.pick(32, 12) => Just(0u16), 1 => Just(tier.pick(20u16, 60u16))])
+        (history(w, cfg, tier.pick(30, 100)), 0u8..3, prop_oneof![tier.pick(64, 24) => Just(0u16), 1 => Just(tier.pick(20u16, 60u16)), 1 => Just(tier.pick(21u16, 61u16))])
             .prop_map(|(ops, n_extra, inject)| Case { ops, n_extra, inject })
             .boxed()
     }
@@ -126,7 +126,7 @@ impl Prop for C12 {
         if c.inject > 0 && out.fail.is_none() {
             // "or any other" error: I/O failures injected at system-call level into a child process running the same history
             let short: Vec<Op> = c.ops.iter().take(12).cloned().collect();
-            crate::props::c13::inject_faults(&short, c.inject as usize, &mut out);
+            crate::props::c13::inject_faults("C12", &short, c.inject as usize, c.inject % 2 == 1, false, &mut out);
         }
         out
     }
